@@ -321,6 +321,9 @@ pub fn body_positions() -> Vec<(&'static str, Box<dyn Fn(Stmt) -> Vec<Stmt> + Sy
     v.push(("file-after-expr-stmt", Box::new(move |s| vec![es(), s])));
     v.push(("file-after-version", Box::new(|s| vec![Stmt::Version("3".into()), s])));
     v.push(("file-before-item", Box::new(move |s| vec![s, decl()])));
+    v.push(("file-after-bare-block", Box::new(move |s| vec![Stmt::Block(vec![decl()]), s])));
+    v.push(("file-after-if-else", Box::new(move |s| vec![Stmt::If { cond: Expr::Bool(true), then: Body::Block(vec![]), els: Some(Body::Block(vec![decl()])) }, s])));
+    v.push(("file-after-while-single", Box::new(move |s| vec![Stmt::While { cond: Expr::Bool(false), body: Body::Single(Box::new(Stmt::Break)) }, s])));
     v.push(("gate-body", Box::new(|s| vec![Stmt::Gate { name: "g".into(), params: None, qubits: vec!["q".into()], body: vec![s] }])));
     v.push(("def-body", Box::new(|s| vec![Stmt::Def { name: "f".into(), params: vec![], ret: None, body: vec![s] }])));
     v.push(("if-then-block", Box::new(|s| vec![Stmt::If { cond: id("c"), then: Body::Block(vec![s]), els: None }])));
@@ -952,6 +955,12 @@ pub fn run_c16(ctx: &RunCtx) {
     // the empty statement parses alone without diagnostics (it is not part of the C04 reference syntax)
     forms.push(("empty".to_string(), ";".to_string()));
     // a bare annotation line and a bare pragma line are statements of their own
+    // brace-less control flow whose body is the empty statement
+    forms.push(("while-empty-body".to_string(), "while ( a ) ;".to_string()));
+    forms.push(("for-empty-body".to_string(), "for int i in [ 0 : 3 ] ;".to_string()));
+    forms.push(("if-empty-body".to_string(), "if ( a ) ;".to_string()));
+    forms.push(("if-else-empty-body".to_string(), "if ( a ) x = 1 ; else ;".to_string()));
+    forms.push(("two-empty".to_string(), "; ;".to_string()));
     forms.push(("bare-annotation".to_string(), "@note a b\n".to_string()));
     forms.push(("bare-annotation-2".to_string(), "@x\n".to_string()));
     let nf = forms.len();
